@@ -702,9 +702,15 @@ def judge(obs, run, pname, info, history="single", first=None):
         def same(a, b):
             return np.array_equal(a, b) if tol == 0.0 else bool(np.all(np.abs(a - b) <= tol))
 
-        expected = []
+        expected, optional = [], []
         for srow in samples:
-            if not any(same(srow, e) for e in expected) and not any(same(srow, o) for o in old):
+            if not any(same(srow, e) for e in expected):
+                known = any(np.array_equal(srow, o) for o in old)
+                if known:
+                    continue
+                # with normalized functions the database compares unnormalize(normalize(sample)) bitwise with its keys:
+                # a sample equal to an old key up to the rounding tolerance may or may not be recorded again
+                optional.append(bool(tol) and any(same(srow, o) for o in old))
                 expected.append(srow)
         new = obs["new_keys"]
         failing_pts = obs.get("failing_points", [])
@@ -715,11 +721,21 @@ def judge(obs, run, pname, info, history="single", first=None):
         prefix_allowed = (not st["reset"] and obs["counter_before"] > 0) or st["stop"] == "time"
         if use_db:
             # D3: the entry of a failing sample may be absent (parallel run) or partial (serial run); all the others are there
-            exp = [e for e in expected if not is_failing(e)]
+            exp = [(e, o_) for e, o_ in zip(expected, optional) if not is_failing(e)]
             got = [k for k in new if not is_failing(k)]
-            ok = len(got) <= len(exp) and all(same(a, b) for a, b in zip(got, exp))
-            if ok and len(got) < len(exp) and not prefix_allowed:
-                ok = False
+            j_ = 0
+            ok = True
+            for e, opt_ in exp:
+                if j_ < len(got) and same(got[j_], e):
+                    j_ += 1
+                elif opt_:
+                    continue
+                elif j_ >= len(got) and prefix_allowed:
+                    break
+                else:
+                    ok = False
+                    break
+            ok = ok and j_ == len(got)
             if not ok:
                 v(
                     "doe-keys-are-samples",
